@@ -4,6 +4,7 @@ package main
 // postcondition checks, ghost fields and type invariants.
 
 import (
+	"go/ast"
 	"fmt"
 	"go/constant"
 	"go/token"
@@ -201,6 +202,10 @@ func (x *VC) ev(e *SExpr, env *SEnv) *Val {
 		return x.evIdx(e, env)
 	case "call":
 		return x.evCall(e, env)
+	case "cast":
+		v := x.ev(e.Args[0], env)
+		t := x.resolveType(e.Name, env.pkg)
+		return &Val{K: KScalar, T: v.T, S: v.S, GT: t}
 	case "typeis":
 		v := x.ev(e.Args[0], env)
 		t := x.resolveType(e.Name, env.pkg)
@@ -275,7 +280,7 @@ func (x *VC) ev(e *SExpr, env *SEnv) *Val {
 		if len(e.Args) > 1 {
 			var ts []string
 			for _, t := range e.Args[1:] {
-				ts = append(ts, x.ev(t, &ne).T)
+				ts = append(ts, patternTerm(x.ev(t, &ne).T))
 			}
 			bt = "(! " + bt + " :pattern (" + strings.Join(ts, " ") + "))"
 		}
@@ -839,6 +844,8 @@ func (x *VC) evCall(e *SExpr, env *SEnv) *Val {
 					ps = "Int"
 				case "ref":
 					ps = "Int"
+				case "real":
+					ps = "Real"
 				default:
 					ps = x.sortOf(x.resolveType(prm.Type, fpkg))
 				}
@@ -861,6 +868,9 @@ func (x *VC) evCall(e *SExpr, env *SEnv) *Val {
 			case "mathint":
 				rs = "Int"
 				rt = types.Typ[types.UntypedInt]
+			case "real":
+				rs = "Real"
+				rt = types.Typ[types.UntypedFloat]
 			case "int":
 				rs = x.idxSort()
 				rt = tInt
@@ -894,7 +904,7 @@ func (x *VC) evCall(e *SExpr, env *SEnv) *Val {
 			if env.depth > 20 {
 				x.specFail(e, "pred recursion too deep")
 			}
-			ne := &SEnv{x: x, vars: map[string]*Val{}, cur: env.cur, old: env.old, result: env.result, sig: env.sig, fn: env.fn, bound: env.bound, depth: env.depth + 1}
+			ne := &SEnv{x: x, vars: map[string]*Val{}, cur: env.cur, old: env.old, result: env.result, sig: env.sig, fn: env.fn, bound: map[string]*Val{}, depth: env.depth + 1} // a pred body sees only its parameters
 			ne.pkg = x.eng.pkgByPath(p.Pkg)
 			if ne.pkg == nil {
 				ne.pkg = env.pkg
@@ -1143,6 +1153,41 @@ func (fr *Frame) loopVars(h *ssa.BasicBlock, st *State) map[string]*Val {
 			if v, ok := fr.vals[phi]; ok && phi.Comment != "" {
 				vars[phi.Comment] = v
 			}
+		}
+	}
+	// named locals defined once before the loop (from DebugRef instructions)
+	amb := map[string]bool{}
+	cand := map[string]*Val{}
+	candV := map[string]ssa.Value{}
+	for _, b := range fr.fn.Blocks {
+		if b != h && !b.Dominates(h) {
+			continue
+		}
+		for _, ins := range b.Instrs {
+			d, ok := ins.(*ssa.DebugRef)
+			if !ok || d.IsAddr {
+				continue
+			}
+			id, ok := d.Expr.(*ast.Ident)
+			if !ok || id.Name == "_" {
+				continue
+			}
+			if _, isPhi := d.X.(*ssa.Phi); isPhi {
+				continue
+			}
+			v, ok := fr.vals[d.X]
+			if !ok {
+				continue
+			}
+			if pv, seen := candV[id.Name]; seen && pv != d.X {
+				amb[id.Name] = true
+			}
+			cand[id.Name], candV[id.Name] = v, d.X
+		}
+	}
+	for n, v := range cand {
+		if _, exists := vars[n]; !exists && !amb[n] {
+			vars[n] = v
 		}
 	}
 	// address-taken locals
@@ -1523,11 +1568,12 @@ func (fr *Frame) loopHeader(h *ssa.BasicBlock, st *State, reach string) (*State,
 	// (2b) automatic frame invariant: components outside the contract's modifies clause change only
 	// at objects allocated since function entry (checked again on every back edge)
 	if fr.top && x.c != nil && !x.c.ModAll && !all {
-		for _, k := range fr.autoFrameKeys(keys) {
+		auto := fr.autoFrameKeys(keys, fr.loopEnv(h, nst))
+		for _, k := range auto {
 			cp := x.comps[k]
-			x.assume(nreach, x.frameCond(cp, x.get(nst, cp), x.get(fr.entrySt, cp), x.get(fr.entrySt, x.allocComp()), nil))
+			x.assume(nreach, x.frameCond(cp, x.get(nst, cp), x.get(fr.entrySt, cp), x.get(fr.entrySt, x.allocComp()), fr.autoExcept[k]))
 		}
-		fr.hdrAuto[h] = fr.autoFrameKeys(keys)
+		fr.hdrAuto[h] = auto
 	}
 	// (3) assume the invariant
 	env2 := fr.loopEnv(h, nst)
@@ -1536,6 +1582,11 @@ func (fr *Frame) loopHeader(h *ssa.BasicBlock, st *State, reach string) (*State,
 		c := x.evalSpec(inv.E, env2)
 		x.assume(nreach, c.T)
 	}
+	for _, as := range ls.Assume {
+		c := x.evalSpec(as.E, env2)
+		x.assume(nreach, c.T)
+		x.externs[fmt.Sprintf("assumed at loop %d of %s [%s]: %s", fr.loopOrd[h], fnKeyShort(fr.fn), as.Label, strings.TrimSpace(as.Src))] = true
+	}
 	if ls.Dec != nil {
 		d := x.evalSpec(ls.Dec, env2)
 		fr.hdrDec[h] = d.T
@@ -1543,14 +1594,30 @@ func (fr *Frame) loopHeader(h *ssa.BasicBlock, st *State, reach string) (*State,
 	return nst, nreach
 }
 
-// autoFrameKeys: loop-written heap components (indexed by object) that the contract does not list.
-func (fr *Frame) autoFrameKeys(keys []string) []string {
+// autoFrameKeys: loop-written heap components (indexed by object) that the contract does not list,
+// or lists only for named objects (`T.f @ obj`: then every other object allocated at entry keeps its value).
+func (fr *Frame) autoFrameKeys(keys []string, env0 *SEnv) []string {
 	x := fr.x
 	allowed := map[string]bool{"alloc": true}
 	env := &SEnv{x: x, pkg: fr.pkgOf()}
+	if fr.autoExcept == nil {
+		fr.autoExcept = map[string][]string{}
+	}
+	except := map[string][]string{}
 	for _, m := range x.c.Modifies {
-		sel, _ := splitModAt(m)
+		sel, at := splitModAt(m)
 		for _, cp := range x.resolveModifies(sel, env) {
+			if at != "" && cp.Idx == "Int" && env0 != nil {
+				if strings.Contains(at, "result") {
+					continue // a fresh result is not allocated at entry
+				}
+				ae, err := parseSpecExpr(at)
+				if err != nil {
+					x.refuse("modifies %s: %v", m, err)
+				}
+				except[cp.Key] = append(except[cp.Key], x.evalSpec(ae, env0.with(fr.entrySt)).T)
+				continue
+			}
 			allowed[cp.Key] = true
 		}
 	}
@@ -1560,6 +1627,7 @@ func (fr *Frame) autoFrameKeys(keys []string) []string {
 		if !ok || allowed[k] || cp.Idx != "Int" || strings.HasPrefix(k, "F|strings.Builder|") {
 			continue
 		}
+		fr.autoExcept[k] = except[k]
 		out = append(out, k)
 	}
 	return out
@@ -1679,7 +1747,7 @@ func (fr *Frame) backEdge(from, h *ssa.BasicBlock, st *State) {
 	}
 	for _, k := range fr.hdrAuto[h] {
 		cp := x.comps[k]
-		x.addObl(fmt.Sprintf("loop%d:frame-preserved", ord), k, pos, reach, x.frameCond(cp, x.get(st, cp), x.get(fr.entrySt, cp), x.get(fr.entrySt, x.allocComp()), nil))
+		x.addObl(fmt.Sprintf("loop%d:frame-preserved", ord), k, pos, reach, x.frameCond(cp, x.get(st, cp), x.get(fr.entrySt, cp), x.get(fr.entrySt, x.allocComp()), fr.autoExcept[k]))
 	}
 	if ls.Dec != nil {
 		d1 := x.evalSpec(ls.Dec, env)
@@ -1799,4 +1867,38 @@ func (x *VC) ghostAssign(g GhostAssign, env *SEnv, st *State) {
 		}
 	}
 	x.refuse("ghost-exit: unsupported left-hand side %s", lhs.String())
+}
+
+// patternTerm makes a trigger term acceptable to the solvers: a guarded map read
+// (ite guard (select (select val m) k) zero) is replaced by its raw read.
+func patternTerm(t string) string {
+	if !strings.HasPrefix(t, "(ite ") {
+		return t
+	}
+	// split the three arguments of the ite
+	var args []string
+	d, start := 0, 5
+	for i := 5; i < len(t)-1; i++ {
+		switch t[i] {
+		case '(':
+			d++
+		case ')':
+			d--
+		case ' ':
+			if d == 0 {
+				args = append(args, t[start:i])
+				start = i + 1
+			}
+		case '|':
+			j := strings.IndexByte(t[i+1:], '|')
+			if j >= 0 {
+				i += j + 1
+			}
+		}
+	}
+	args = append(args, t[start:len(t)-1])
+	if len(args) == 3 && strings.HasPrefix(args[1], "(select ") {
+		return args[1]
+	}
+	return t
 }
